@@ -1499,7 +1499,7 @@ func c09NRSnapshot(nr *framework.NodeResource) string {
 
 func TestVerifC09Prepare(t *testing.T) {
 	c09Setup(t)
-	kit.Run(t, kit.Config{Property: "C09", Unit: "prepare", Quick: 6000, Thorough: 30000,
+	kit.Run(t, kit.Config{Property: "C09", Unit: "prepare", Quick: 6000, Thorough: 300000,
 		Rule: "same input generator (12% stale/missing metric); after the real Calculate the items are put into a framework.NodeResource as the controller does, with the cpu-normalization ratio annotation absent / 1.00 / 1.01 / 1.20 / 1.50 / 2.00 / 3.00 / 5.00 / random two-decimal value in [1,5]; the real Plugin.Prepare is then run 1-4 times on the SAME NodeResource against fresh copies of the node (60% carrying batch amounts of an earlier reconcile, 20% a third-party batch allocation), NeedSync after each; oracle: written capacity/allocatable/origin annotation <= ceil(calculated x ratio) for batch-cpu and <= calculated for batch-memory, k-th call writes what the first wrote, memory identical with and without ratio, reset items remove the resources from the node; mutation of the NodeResource is counted; distinct = (ratio, calls, old amounts?, third party?, reset?, zero amount?); non-trivial = ratio > 1, at least two calls and a positive batch-cpu amount"},
 		func(c *kit.Case) {
 			r := c.R
